@@ -29,6 +29,56 @@ CHECKS = {
          "All histories of the enumerated families (set/remove over 3-4 files x 7 cross-referencing text variants, memoisation patterns none/each single query/all between edits, depth 3 quick / 4 thorough): every answer of diagnostics, analyze, file_symbols, type_of, expr_id_at_offset equals a fresh database's on a canonical rendering without raw ids; repeated queries agree; no panic.",
          "The product of memoisation patterns is restricted to named prefix-closed families (see evidence stages); texts without VAR_GLOBAL/CONFIGURATION; 5 files not covered.",
          "DESIGN.md §5 C13"),
+ "C01": ("exploration",
+         "bounded-exhaustive enumeration of generated ST programs (families F1-F9 of the ST-core corpus: operator matrices over boundary values of every integer type and reals, conversion matrix, control-flow shapes, calls incl. recursion, FB instances, precedence triples, aggregate indexing, hand-written feature probes), each compiled and run in crash-isolated worker processes; oracle = outcome class of every cycle",
+         "Every accepted program of the enumerated families, every cycle: the cycle ends Ok or with a value-dependent fault (never a static-class error), no panic, no process abort, no hang, no call frame left behind.",
+         "Small scope: everything in the families, nothing beyond; the list of value-dependent fault classes is taken from the property statement.",
+         "DESIGN.md §5 shared corpus, C01"),
+ "C02": ("exploration",
+         "bounded-exhaustive enumeration of the reference-defined stratum of the ST-core corpus, differential oracle: an independently written reference evaluator over the generated AST (exact integer arithmetic in the promoted type with overflow fault, truncating division, IEC Table 71 precedence, short-circuit AND/OR, FOR test before each iteration, by-value inputs / in-outs / outputs, FB instance state)",
+         "For every program of the stratum and every cycle: fault/no-fault and fault class equal the reference's, and every variable the reference defines has the reference's value (compared numerically, type tags are C03's business).",
+         "Constructs the documents leave open are excluded (mixed signed/unsigned operands, REAL overflow/division by zero, MOD by zero with an Ok outcome, value of a FOR control variable after the loop, loops leaving the control type's range).",
+         "DESIGN.md §2.5, §5 C02"),
+ "C03": ("exploration",
+         "invariant checked on the storage dump after every cycle of every program of the ST-core corpus: the runtime tag of each scalar location (variables, array elements, struct fields, FB members) equals its declared type and integers are in range",
+         "All write paths exercised by the corpus: assignment from variables/literals/expressions of every accepted source type into every declared type, index and field targets, parameters, FOR control variables, FB members.",
+         "Declared types come from the generator (not from the runtime). Debugger writes, I/O latching and restart paths are exercised by the engines of C17, C07 and C09, which do not check tags.",
+         "DESIGN.md §5 C03"),
+ "C04": ("model_checking",
+         "explicit-state breadth-first search over call histories of TON, TOF, TP, CTU, CTD, CTUD, R_TRIG, F_TRIG, SR, RS at two seams (the pure Rust step structs and ST programs with two instances per kind run through TestHarness); state = all instance variables incl. hidden ones + reference-model state; oracle = the clauses of the IEC timing diagrams as arithmetic on accumulated time",
+         "Every history up to depth 6 (quick) / 12 (thorough) over IN x dt in {0,1,2,3,5} ms x PT families (-1, 0, 2, 3, max, changing per call), counters over all input combinations x PV in {-1,0,1,2,max} from initial and near-saturation states; many families reach a fixpoint (closed state space). Instance independence is checked against a second instance on a fixed trace.",
+         "Where the statement is silent (ET after reset, negative PT, PT changed mid-run) several readings are kept alive and only an observation no reading explains is reported.",
+         "DESIGN.md §5 C04"),
+ "C08": ("fault_enumeration",
+         "enumeration of every fault point (209: every statement position of a two-task + background program skeleton incl. nested function/FB calls x {division by zero, index out of bounds, null dereference} x cycle 1..3; driver read/write errors; deadline, task-collect, retain-save, watchdog, simulation faults) x fault policy x watchdog action x all 64 safe-state maps x driver sets, each executed on the real runtime with logging drivers",
+         "After every fault: the latch is set, every later cycle request is refused with an identical state, restart clears the latch; where the policy demands it every safe-state (address,value) is in the output image and in the last image each driver received, delivered before the fault was reported.",
+         "Quick runs the map/observer slices on 11 representative fault points, thorough on all 209; the resource-thread and Modbus families are small samples of the same oracle.",
+         "DESIGN.md §5 C08"),
+ "C09": ("model_checking",
+         "explicit-state breadth-first search (x2::bfs, states merged on a hash of the name-keyed dump + time + fault latch + images + reference-model state) over histories of {cycle, %I writes, restart(Warm), restart(Cold), power cycle through a real FileRetainStore, fault} on generated programs that declare every qualifier x scope x type; oracle = retain model + differential comparison of every cold-restarted state with a freshly built runtime on all 2-cycle continuations + relational binding checks",
+         "All histories to depth 4 (quick) / 8 (thorough) on five program families (149-variable matrix, bindings, config-init, single, memory).",
+         "Ambiguous cases (FB members under RETAIN, PROGRAM RETAIN, VAR_CONFIG init after warm) accept either reading but require the same reading for warm restart and power cycle.",
+         "DESIGN.md §5 C09"),
+ "C10": ("fault_enumeration",
+         "crash-point enumeration: FileRetainStore::store runs in a child process under an LD_PRELOAD shim that kills it before every intercepted system call and inside every write at every byte length; the parent then calls the real load(). Plus exhaustive codec round trips over all 31 value tags x boundary payloads to nesting depth 2, and decoder totality over every single-byte substitution / truncation / 4-byte window of 21 base images and nesting sweeps, each in a crash-isolated worker under RLIMIT_AS",
+         "Every crash point of every (old,new) snapshot pair: load() returns the old or the new snapshot in full and a later store works; every enumerated value shape round-trips bit-exactly; every enumerated hostile image yields Ok/Err, never panic, abort, stack overflow or timeout.",
+         "Process death only (no page-cache loss); over-allocations that stay below the 1 GiB address-space limit are not observable.",
+         "DESIGN.md §2.4, §5 C10"),
+ "C11": ("exploration",
+         "structure-aware exhaustive mutation of valid STBC containers with recomputed CRC (every byte x 7 values, every u16/u32/i64 field x boundary and length-derived values, every tag x its domain, every truncation with and without table fix-up, section-table permutations, self-referential type indices), each mutant run through decode -> validate -> metadata -> encode -> apply_bytecode_bytes -> restart in a fork-server worker under RLIMIT_AS; plus round trips over 117 compiled programs/projects",
+         "Every mutant of every seed (389k quick, 2.5M thorough): every stage returns Ok/Err, a mutant that validates applies without panic; every compiled container validates and decode/encode are mutually inverse byte for byte.",
+         "Memory proportional to the input is approximated by a 1 GiB address-space cap.",
+         "DESIGN.md §5 C11"),
+ "C18": ("exploration",
+         "bounded-exhaustive enumeration of request type (all names extracted from the dispatcher and the role table in the current source + garbled variants) x params x credential x endpoint configuration against a real ControlServer on a unix socket with a freshly built ControlState per group, effect probes before/after; explicit-state search of the pairing sub-protocol (start/claim/revoke/clock ticks, depth 4 quick / 6 thorough) against a reference model; every truncation of valid request lines and garbage lines on a live connection",
+         "Every enumerated request: performed only with a sufficient role, performed set upward closed, no effect for viewer, mutating types above viewer in the table, no effect and no data without valid credentials when a token is configured, debug-class requests refused while debug is disabled, every line answered with a well-formed reply.",
+         "An effect is a difference of the probed state (DebugControl, settings, restart signal, resource commands, pairing store, project files, variables after one more cycle); metrics/uptime and read-side bookkeeping are ignored.",
+         "DESIGN.md §5 C18"),
+ "C19": ("exploration",
+         "part 1: bounded-exhaustive enumeration of path strings (all sequences of <= 3 / 4 components over a 17-entry menu incl. .., ., empty, hidden, symlinked directory, long and non-ASCII names, joined with /, //, backslash, with absolute / drive / URL-encoded / NUL decorations) x every file API operation x session kind x write_enabled on a real WebIdeState whose project is nested in a sentinel tree (snapshot + access-time detectors). part 2: stateless exploration of all thread schedules (controlled scheduler, deviation-bounded) of k editor sessions doing open -> apply(expected version) with retries on one file",
+         "No operation changes or reads anything outside the project or any hidden entry, non-editor/unknown/write-disabled callers change nothing; in every explored schedule each successful write was based on the content of the previous successful write and the file equals the last successful write.",
+         "Expired sessions are represented by never-issued tokens (the clock seam is not public); reads that leave no trace are seen only through access times; writer schedules at Mutex + hooked file read/write granularity.",
+         "DESIGN.md §2.3, §5 C19"),
 }
 
 NOT_APPLICABLE = {
